@@ -240,6 +240,11 @@ with zblock : sstate -> rvalue -> list stmt -> bout -> sstate -> Prop :=
 (* the statement `if c exitWith {..}` with a true condition: the handler runs in its own scope, the rest of this scope does not *)
 | ZBExit s reg n l x b s1 s2 out s3 rest : lower n = "exitwith" -> zev s l (RIf true) s1 -> zev s1 x (RCode b) s2 ->
     zblock (enter s2 []) RNil b out s3 -> zblock s reg (SExpr (EBinary n l x) :: rest) (BExit (val_of out)) (pop_scope s3)
+(* ... and a statement whose expression is left by an exitWith that stands INSIDE AN OPERAND (relation zexexit below): the scope ends all
+   the same, with the handler's value; the operands that were already evaluated are dropped with the scope's part of the operand stack *)
+| ZBExitIn s reg e v s1 rest : zexexit s e v s1 -> zblock s reg (SExpr e :: rest) (BExit v) s1
+| ZBExitAssign s reg n e v s1 rest : zexexit s e v s1 -> zblock s reg (SAssign n e :: rest) (BExit v) s1
+| ZBExitLocal s reg n e v s1 rest : zexexit s e v s1 -> zblock s reg (SLocal n e :: rest) (BExit v) s1
 with ziter : lkind -> sstate -> list rvalue -> nat -> list stmt -> rvalue -> rvalue -> sstate -> Prop :=
 | ZIterNil k s i body acc : ziter k s [] i body acc acc s
 | ZIterCons k s x rest i body acc reg s1 acc1 acc' s' :
@@ -417,7 +422,19 @@ with zscopeleave : sstate -> list (string*rvalue) -> list stmt -> abr -> sstate 
 (* the elements of an array: the first one is left, or - for breakOut - a later one after elements that were evaluated *)
 with zelemsleave : sstate -> list expr -> abr -> sstate -> Prop :=
 | ZELHd s e l ab s1 : zloopleave s e ab s1 -> zelemsleave s (e :: l) ab s1
-| ZELTl s e v l t v0 s1 s2 : zev s e v s1 -> nonnil v -> zelemsleave s1 l (ABreak t v0) s2 -> zelemsleave s (e :: l) (ABreak t v0) s2.
+| ZELTl s e v l t v0 s1 s2 : zev s e v s1 -> nonnil v -> zelemsleave s1 l (ABreak t v0) s2 -> zelemsleave s (e :: l) (ABreak t v0) s2
+(* an expression left by exitWith: `if c exitWith {..}` with a true condition itself, or an operand / an array element that is left that
+   way - in any position, whatever operands wait; the state is the one in the scope that ends (the handler's scope closed) *)
+with zexexit : sstate -> expr -> rvalue -> sstate -> Prop :=
+| ZXHere s n l x b s1 s2 out s3 : lower n = "exitwith" -> zev s l (RIf true) s1 -> zev s1 x (RCode b) s2 ->
+    zblock (enter s2 []) RNil b out s3 -> zexexit s (EBinary n l x) (val_of out) (pop_scope s3)
+| ZXUn s n a v s1 : (forall k, a <> ENum k) -> zexexit s a v s1 -> zexexit s (EUnary n a) v s1
+| ZXBinL s n a b v s1 : zexexit s a v s1 -> zexexit s (EBinary n a b) v s1
+| ZXBinR s n a b va v s1 s2 : zev s a va s1 -> zexexit s1 b v s2 -> zexexit s (EBinary n a b) v s2
+| ZXArr s l v s1 : zelemsexit s l v s1 -> zexexit s (EArr l) v s1
+with zelemsexit : sstate -> list expr -> rvalue -> sstate -> Prop :=
+| ZXEHd s e l v s1 : zexexit s e v s1 -> zelemsexit s (e :: l) v s1
+| ZXETl s e v0 l v s1 s2 : zev s e v0 s1 -> nonnil v0 -> zelemsexit s1 l v s2 -> zelemsexit s (e :: l) v s2.
 
 Scheme zev_i := Induction for zev Sort Prop
   with zevs_i := Induction for zevs Sort Prop
@@ -433,9 +450,11 @@ Scheme zev_i := Induction for zev Sort Prop
   with zfleave_i := Induction for zfleave Sort Prop
   with zwleave_i := Induction for zwleave Sort Prop
   with zscopeleave_i := Induction for zscopeleave Sort Prop
-  with zelemsleave_i := Induction for zelemsleave Sort Prop.
+  with zelemsleave_i := Induction for zelemsleave Sort Prop
+  with zexexit_i := Induction for zexexit Sort Prop
+  with zelemsexit_i := Induction for zelemsexit Sort Prop.
 Combined Scheme z_ind from zev_i, zevs_i, zstmt_i, zblock_i, ziter_i, zfor_i, zwhile_i, zthrow_i, zbreak_i,
-  zloopleave_i, zileave_i, zfleave_i, zwleave_i, zscopeleave_i, zelemsleave_i.
+  zloopleave_i, zileave_i, zfleave_i, zwleave_i, zscopeleave_i, zelemsleave_i, zexexit_i, zelemsexit_i.
 
 (* a breakOut that leaves a block names a scope and hands over a value (nil for the unary form) - also through loops *)
 Definition abr_ok (a:abr) : Prop := match a with AThrow _ => True | ABreak t v => t <> "" /\ v <> RNone end.
@@ -452,7 +471,8 @@ Lemma zexit_facts :
   (forall var to st s x first body a s', zfleave var to st s x first body a s' -> abr_ok a) /\
   (forall cond body s first a s', zwleave cond body s first a s' -> abr_ok a) /\
   (forall s vars b a s', zscopeleave s vars b a s' -> abr_ok a) /\
-  (forall s l a s', zelemsleave s l a s' -> abr_ok a).
+  (forall s l a s', zelemsleave s l a s' -> abr_ok a) /\
+  (forall s e v s', zexexit s e v s' -> True) /\ (forall s l v s', zelemsexit s l v s' -> True).
 Proof.
   apply z_ind; intros; try exact I; try assumption; try (cbn [abr_ok] in *; assumption).
   - (* breakOut "t" *) split; [assumption|discriminate].
@@ -461,8 +481,28 @@ Qed.
 Lemma zbreak_facts s reg b t v s' : zbreak s reg b t v s' -> t <> "" /\ v <> RNone.
 Proof. exact (proj1 (proj2 (proj2 (proj2 (proj2 (proj2 (proj2 (proj2 (proj2 zexit_facts)))))))) s reg b t v s'). Qed.
 
+(* a block always ends with a value - also when an exitWith inside an operand ends it *)
+Lemma zval_facts :
+  (forall s e v s', zev s e v s' -> True) /\ (forall s l vs s', zevs s l vs s' -> True) /\
+  (forall s reg st reg1 s1, zstmt s reg st reg1 s1 -> True) /\ (forall s reg b out s', zblock s reg b out s' -> val_of out <> RNone) /\
+  (forall k s arr i body acc acc' s', ziter k s arr i body acc acc' s' -> True) /\
+  (forall var to st s x first body acc s', zfor var to st s x first body acc s' -> True) /\
+  (forall cond body s first v s', zwhile cond body s first v s' -> True) /\
+  (forall s reg b x s', zthrow s reg b x s' -> True) /\
+  (forall s reg b t v s', zbreak s reg b t v s' -> True) /\
+  (forall s e a s', zloopleave s e a s' -> True) /\
+  (forall k s arr i body acc a s', zileave k s arr i body acc a s' -> True) /\
+  (forall var to st s x first body a s', zfleave var to st s x first body a s' -> True) /\
+  (forall cond body s first a s', zwleave cond body s first a s' -> True) /\
+  (forall s vars b a s', zscopeleave s vars b a s' -> True) /\
+  (forall s l a s', zelemsleave s l a s' -> True) /\
+  (forall s e v s', zexexit s e v s' -> v <> RNone) /\ (forall s l v s', zelemsexit s l v s' -> v <> RNone).
+Proof.
+  apply z_ind; intros; try exact I; cbn [val_of] in *; try assumption;
+    match goal with |- res_of ?r <> _ => destruct r; discriminate end.
+Qed.
 Lemma zblock_val s reg b out s' : zblock s reg b out s' -> val_of out <> RNone.
-Proof. induction 1; cbn [val_of]; try assumption; match goal with |- res_of ?r <> _ => destruct r; discriminate end. Qed.
+Proof. exact (proj1 (proj2 (proj2 (proj2 zval_facts))) s reg b out s'). Qed.
 Lemma kstep_not_none k x i reg acc c a1 : kstep k x i reg acc = Some (c, a1) -> acc <> RNone -> a1 <> RNone.
 Proof.
   destruct k; cbn [kstep]; intros H N.
@@ -2529,6 +2569,21 @@ Proof.
   - exact (HL rV cV fV (fcur :: rest2) (c_values c) AV FRV ECV EPV).
 Qed.
 
+(* ---------------------------------------------------------------- exitWith inside an operand *)
+(* the code of the running frame f - the scope that ends - is left by exitWith while pend waits on f's part of the operand stack: f is
+   gone, its part of the stack with it, the handler's value stands on what lay below *)
+Definition ExprExits (s:sstate) (e:expr) (v:rvalue) (s':sstate) : Prop :=
+  forall r c f fc rest pre post pend below, Mach s r c f (fc :: rest) ->
+    f_code f = pre ++ compile_expr e ++ post -> f_pos f = length pre ->
+    c_values c = pend ++ below -> length below = f_base f -> f_base fc <= length below ->
+    exists r' c' fc' rest', Steps r r' /\ Mach (pop_scope s') r' c' fc' rest' /\ c_values c' = cv v :: below /\
+      kept fc fc' /\ Forall2 kept rest rest'.
+Definition ElemsExit (s:sstate) (l:list expr) (v:rvalue) (s':sstate) : Prop :=
+  forall r c f fc rest pre post pend below, Mach s r c f (fc :: rest) ->
+    f_code f = pre ++ flat_map compile_expr l ++ post -> f_pos f = length pre ->
+    c_values c = pend ++ below -> length below = f_base f -> f_base fc <= length below ->
+    exists r' c' fc' rest', Steps r r' /\ Mach (pop_scope s') r' c' fc' rest' /\ c_values c' = cv v :: below /\
+      kept fc fc' /\ Forall2 kept rest rest'.
 Theorem vm_runs_z :
   (forall s e v s', zev s e v s' -> forall r c f rest pre post, Mach s r c f rest ->
       f_code f = pre ++ compile_expr e ++ post -> f_pos f = length pre -> Post s' (cv v) (length (compile_expr e)) r c f rest) /\
@@ -2548,7 +2603,9 @@ Theorem vm_runs_z :
   (forall var to st s x first body a s', zfleave var to st s x first body a s' -> ForLeaves var to st s x first body a s') /\
   (forall cond body s first a s', zwleave cond body s first a s' -> WhileLeaves cond body s first a s') /\
   (forall s vars b a s', zscopeleave s vars b a s' -> ScopeLeaves s vars b a s') /\
-  (forall s l a s', zelemsleave s l a s' -> ElemsLeaves s l a s').
+  (forall s l a s', zelemsleave s l a s' -> ElemsLeaves s l a s') /\
+  (forall s e v s', zexexit s e v s' -> ExprExits s e v s') /\
+  (forall s l v s', zelemsexit s l v s' -> ElemsExit s l v s').
 Proof.
   apply z_ind.
   - (* pure *) intros s e v HE r c f rest pre post (G & EF & M & B & D) EC EP.
@@ -3561,6 +3618,17 @@ Proof.
       * apply match_upd. destruct MM4 as [F N]. split; [|exact N]. inversion F as [|sc f0 scs fs FM F' E1 E2]; subst. cbn. rewrite <- E1. cbn. exact F'.
       * split; [cbn; rewrite (kept_base _ _ Kc), (kept_base _ _ Ka); lia|rewrite quirks_upd_cur; exact D4].
     + split; [reflexivity|]. split; [eapply kept_trans; eassumption|eapply kept_all_trans; eassumption].
+  - (* a statement whose expression is left by an exitWith inside an operand *)
+    intros s reg e v s1 rest0 HX IHx r c f fc rest below pre (MA & LB & top & EV & RR) FR EC EP HBf.
+    exact (IHx r c f fc rest pre (compile_block_from false rest0) top below MA EC EP EV LB HBf).
+  - (* x = e, e left by exitWith *)
+    intros s reg n e v s1 rest0 HX IHx r c f fc rest below pre (MA & LB & top & EV & RR) FR EC EP HBf.
+    unfold compile_block in EC. cbn [compile_block_from compile_stmt app] in EC. rewrite <- app_assoc in EC.
+    exact (IHx r c f fc rest pre _ top below MA EC EP EV LB HBf).
+  - (* private _x = e, e left by exitWith *)
+    intros s reg n e v s1 rest0 HX IHx r c f fc rest below pre (MA & LB & top & EV & RR) FR EC EP HBf.
+    unfold compile_block in EC. cbn [compile_block_from compile_stmt app] in EC. rewrite <- app_assoc in EC.
+    exact (IHx r c f fc rest pre _ top below MA EC EP EV LB HBf).
   - (* no more rounds *) intros k s i body acc. exact I.
   - (* a round, then the rest *) intros k s x rest0 i body acc reg s1 acc1 acc' s' HB IHb KS KO HI IHi.
     cbn [IterRuns]. intros r c f fc frest below allarr b A FR EC EP EX KB ED SK LF ENS HBf.
@@ -4404,6 +4472,80 @@ Proof.
     apply (leaves0_back (ABreak t v0) s2 r r1 f f1 restf rest1 [cv v] (c_values c) S1 MV1 K1 I).
     change ([cv v] ++ c_values c) with (cv v :: c_values c). rewrite <- EV1.
     exact (IHl r1 c1 f1 rest1 (pre ++ compile_expr e) post M1 EC1 EP1).
+  - (* if true exitWith {..} in an operand position: pend waits on the stack of the scope that ends *)
+    intros s n l x b s1 s2 out s3 HN HL IHl HX IHx HB IHb r c f fc rest pre post pend below MA EC EP EV LB HBf.
+    rewrite compile_binary, <- !app_assoc in EC.
+    post_intro (IHl r c f (fc :: rest) pre _ MA EC EP) r1 c1 f1 rest1 S1 M1 EV1 MV1 P1 K1.
+    destruct (after_operands_code f f1 pre _ _ MV1 EC EP P1) as [EC1 EP1].
+    post_intro (IHx r1 c1 f1 rest1 (pre ++ compile_expr l) _ M1 EC1 EP1) r2 c2 f2 rest2 S2 M2 EV2 MV2 P2 K2.
+    destruct (after_operands_code f1 f2 _ _ _ MV2 EC1 EP1 P2) as [EC2 EP2].
+    destruct M2 as (G2 & EF2 & MM2 & B2 & D2). destruct MA as (_ & _ & _ & B & _).
+    rewrite EV1 in EV2.
+    assert (KK : Forall2 kept (fc :: rest) rest2) by (eapply kept_all_trans; eassumption).
+    inversion KK as [|fa fc2 ra rest2' Ka Kb Ea Eb]; subst.
+    set (c0 := set_values (set_frames c2 (set_pos f2 (S (f_pos f2)) :: fc2 :: rest2')) (c_values c)).
+    set (fdie := set_die (set_pos (set_pos f2 (S (f_pos f2))) (S (length (f_code f2)))) true).
+    set (cX := push_frame (upd_top c0 (fun f => set_die (set_pos f (S (length (f_code f)))) true))
+                          (mk_frame (cur_ns c0) (compile_block b) None None [])).
+    destruct (binary_run r2 c2 f2 (fc2 :: rest2') _ _ (lower n) (cv (RIf true)) (cv (RCode b)) (c_values c) cX VNil G2 EF2 EC2 EP2 EV2) as [S3 G3].
+    { rewrite (moved_base _ _ MV2), (moved_base _ _ MV1); exact B. } { discriminate. } { discriminate. } { rewrite lower_idem, HN. reflexivity. }
+    { destruct G2 as (_ & _ & _ & _ & _ & _ & SU); exact SU. }
+    set (nf := set_base (mk_frame (cur_ns c0) (compile_block b) None None []) (length (c_values c))).
+    assert (A3 : AtM (enter s2 []) RNil (upd_cur r2 (push_value cX VNil)) (push_value cX VNil) nf (fdie :: fc2 :: rest2') (c_values c)).
+    { split.
+      - split; [exact G3|]. split; [reflexivity|]. split.
+        + apply match_upd. destruct MM2 as [F N]. split; [|exact N]. cbn. inversion F as [|sc f0 scs fs FM F' E1 E2]; subst.
+          constructor; [|constructor; [exact FM|exact F']].
+          split; [intros k; reflexivity|split; [|split; reflexivity]]. cbn. destruct FM as (_ & NS & _). unfold cur_ns_of. rewrite <- E1. exact NS.
+        + split; [cbn; lia|rewrite quirks_upd_cur; exact D2].
+      - split; [reflexivity|]. exists [VNil]. split; [reflexivity|]. split; [reflexivity|]. split; [discriminate|nil_case]. }
+    destruct (scope_ends_of_body _ _ _ _ _ IHb _ _ nf fdie (fc2 :: rest2') (c_values c) [] A3 (fresh_one (push_value cX VNil) (c_values c) eq_refl) eq_refl eq_refl eq_refl) as (r4 & c4 & fd4 & rest4 & S4 & M4 & EV4 & K4 & KR4).
+    { cbn. rewrite (moved_base _ _ MV2), (moved_base _ _ MV1); exact B. }
+    inversion KR4 as [|fb fc4 rb rest4' Kc Kd Ec Ed]; subst.
+    destruct M4 as (G4 & EF4 & MM4 & B4 & D4).
+    destruct (complete_dead r4 c4 fd4 fc4 rest4' (cv (val_of out) :: pend) below G4 D4 EF4) as [S5 G5].
+    { rewrite (kept_pos _ _ K4), (kept_code _ _ K4). reflexivity. }
+    { rewrite (kept_die _ _ K4). reflexivity. }
+    { rewrite EV4, EV. reflexivity. }
+    { rewrite (kept_base _ _ K4). cbn. rewrite (moved_base _ _ MV2), (moved_base _ _ MV1). exact LB. }
+    eexists _, _, fc4, rest4'. split; [eapply steps_trans; [exact S1|eapply steps_trans; [exact S2|eapply steps_trans; [exact S3|eapply steps_trans; [exact S4|exact S5]]]]|].
+    split.
+    + split; [exact G5|]. split; [reflexivity|]. split.
+      * apply match_upd. destruct MM4 as [F N]. split; [|exact N]. inversion F as [|sc f0 scs fs FM F' E1 E2]; subst. cbn. rewrite <- E1. cbn. exact F'.
+      * split; [cbn; rewrite (kept_base _ _ Kc), (kept_base _ _ Ka); lia|rewrite quirks_upd_cur; exact D4].
+    + split; [reflexivity|]. split; [eapply kept_trans; eassumption|eapply kept_all_trans; eassumption].
+  - (* the operand of a unary operator is left by exitWith *)
+    intros s n a v s1 NL HX IHx r c f fc rest pre post pend below MA EC EP EV LB HBf.
+    rewrite (compile_unary_nonlit n a NL), <- app_assoc in EC. exact (IHx r c f fc rest pre _ pend below MA EC EP EV LB HBf).
+  - (* the left operand is left by exitWith *)
+    intros s n a b v s1 HX IHx r c f fc rest pre post pend below MA EC EP EV LB HBf.
+    rewrite compile_binary, <- !app_assoc in EC. exact (IHx r c f fc rest pre _ pend below MA EC EP EV LB HBf).
+  - (* the right operand is left by exitWith: the left operand's value joins what waits *)
+    intros s n a b va v s1 s2 HA IHa HX IHx r c f fc rest pre post pend below MA EC EP EV LB HBf.
+    rewrite compile_binary, <- !app_assoc in EC.
+    post_intro (IHa r c f (fc :: rest) pre _ MA EC EP) r1 c1 f1 rest1 S1 M1 EV1 MV1 P1 K1.
+    destruct (after_operands_code f f1 pre _ _ MV1 EC EP P1) as [EC1 EP1].
+    inversion K1 as [|fa fc1 ra rest1' Ka Kb Ea Eb]; subst.
+    destruct (IHx r1 c1 f1 fc1 rest1' (pre ++ compile_expr a) _ (cv va :: pend) below M1 EC1 EP1) as (r' & c' & fc' & rest' & S2 & M2 & EV2 & K2 & KR2).
+    { rewrite EV1, EV. reflexivity. } { rewrite (moved_base _ _ MV1). exact LB. } { rewrite (kept_base _ _ Ka). exact HBf. }
+    exists r', c', fc', rest'. split; [eapply steps_trans; eassumption|]. split; [exact M2|]. split; [exact EV2|].
+    split; [eapply kept_trans; eassumption|eapply kept_all_trans; eassumption].
+  - (* an element of an array is left by exitWith *)
+    intros s l v s1 HX IHx r c f fc rest pre post pend below MA EC EP EV LB HBf.
+    rewrite compile_array, <- app_assoc in EC. exact (IHx r c f fc rest pre _ pend below MA EC EP EV LB HBf).
+  - (* the first element *)
+    intros s e l v s1 HX IHx r c f fc rest pre post pend below MA EC EP EV LB HBf.
+    cbn [flat_map] in EC. rewrite <- app_assoc in EC. exact (IHx r c f fc rest pre _ pend below MA EC EP EV LB HBf).
+  - (* a later element: the elements evaluated so far join what waits *)
+    intros s e v0 l v s1 s2 HE IHe NN HX IHx r c f fc rest pre post pend below MA EC EP EV LB HBf.
+    cbn [flat_map] in EC. rewrite <- app_assoc in EC.
+    post_intro (IHe r c f (fc :: rest) pre _ MA EC EP) r1 c1 f1 rest1 S1 M1 EV1 MV1 P1 K1.
+    destruct (after_operands_code f f1 pre _ _ MV1 EC EP P1) as [EC1 EP1].
+    inversion K1 as [|fa fc1 ra rest1' Ka Kb Ea Eb]; subst.
+    destruct (IHx r1 c1 f1 fc1 rest1' (pre ++ compile_expr e) post (cv v0 :: pend) below M1 EC1 EP1) as (r' & c' & fc' & rest' & S2 & M2 & EV2 & K2 & KR2).
+    { rewrite EV1, EV. reflexivity. } { rewrite (moved_base _ _ MV1). exact LB. } { rewrite (kept_base _ _ Ka). exact HBf. }
+    exists r', c', fc', rest'. split; [eapply steps_trans; eassumption|]. split; [exact M2|]. split; [exact EV2|].
+    split; [eapply kept_trans; eassumption|eapply kept_all_trans; eassumption].
 Qed.
 
 
@@ -4648,7 +4790,9 @@ Theorem ref_runs_z :
   (forall cond body s first a s', zwleave cond body s first a s' -> exists f0 k0, forall f, f0 <= f -> forall k, k0 <= k -> forall n, first = Nat.eqb n 0 ->
       while_loop_f f cond body k s n = (oa a, s')) /\
   (forall s vars b a s', zscopeleave s vars b a s' -> exists f0, forall f, f0 <= f -> in_scope_f f s (plain_scope_f s vars) b = (oa a, s')) /\
-  (forall s l a s', zelemsleave s l a s' -> exists f0, forall f, f0 <= f -> forall acc, go_arr f s l acc = (oa a, s')).
+  (forall s l a s', zelemsleave s l a s' -> exists f0, forall f, f0 <= f -> forall acc, go_arr f s l acc = (oa a, s')) /\
+  (forall s e v s', zexexit s e v s' -> exists f0, forall f, f0 <= f -> eval f s e = (OExit v, s')) /\
+  (forall s l v s', zelemsexit s l v s' -> exists f0, forall f, f0 <= f -> forall acc, go_arr f s l acc = (OExit v, s')).
 Proof.
   apply z_ind.
   - (* pure *) intros s e v HE. exists (esize e). intros f L. exact (proj2 (proj1 (pure_ref _ _) e v HE) s f (renv_ok_of s) L).
@@ -4865,6 +5009,12 @@ Proof.
     rewrite eval_binary_exitwith.
     rewrite (in_scope_out (S f) s2 (plain_scope_f s2 []) b out s3) by (apply IHb; lia).
     reflexivity.
+  - (* expression left by exitWith *) intros s reg e v s1 rest HX [fx IHx]. exists (S fx). intros [|f] L; [lia|].
+    cbn [eval_block]. rewrite (IHx f) by lia. reflexivity.
+  - (* x = e left by exitWith *) intros s reg n e v s1 rest HX [fx IHx]. exists (S fx). intros [|f] L; [lia|].
+    cbn [eval_block]. rewrite (IHx f) by lia. reflexivity.
+  - (* private _x = e left by exitWith *) intros s reg n e v s1 rest HX [fx IHx]. exists (S fx). intros [|f] L; [lia|].
+    cbn [eval_block]. rewrite (IHx f) by lia. reflexivity.
   - (* no more rounds *) intros k s i body acc. exists 0. intros f _ [|kk] L; [cbn in L; lia|]. reflexivity.
   - (* a round, then the rest *) intros k s x rest0 i body acc reg s1 acc1 acc' s' HB [fb IHb] KS KO HI [fi IHi]. exists (fb + fi).
     intros f L [|kk] LK; [lia|]. cbn [iterate_f]. fold (iterate_f f). rewrite kvars_iter.
@@ -5127,4 +5277,23 @@ Proof.
     transitivity (go_arr f s1 l (v :: acc)).
     + destruct NN as [A1 A2]. destruct v; try contradiction; reflexivity.
     + apply IHl. lia.
+  - (* if true exitWith {..} *) intros s n l x b s1 s2 out s3 HN HL [fl IHl] HX [fx IHx] HB [fb IHb]. exists (S (S (fl + fx + fb))).
+    intros [|f] L; [lia|]. rewrite eval_S_binary, (IHl f), (IHx f) by lia. rewrite HN.
+    destruct f as [|f]; [lia|].
+    rewrite eval_binary_exitwith.
+    rewrite (in_scope_out (S f) s2 (plain_scope_f s2 []) b out s3) by (apply IHb; lia).
+    reflexivity.
+  - (* unary operand *) intros s n a v s1 NL HX [fx IHx]. exists (S fx). intros [|f] L; [lia|].
+    rewrite (eval_S_unary _ _ _ _ NL), (IHx f) by lia. reflexivity.
+  - (* left operand *) intros s n a b v s1 HX [fx IHx]. exists (S fx). intros [|f] L; [lia|].
+    rewrite eval_S_binary, (IHx f) by lia. reflexivity.
+  - (* right operand *) intros s n a b va v s1 s2 HA [fa IHa] HX [fx IHx]. exists (S (fa + fx)). intros [|f] L; [lia|].
+    rewrite eval_S_binary, (IHa f), (IHx f) by lia. reflexivity.
+  - (* array *) intros s l v s1 HX [fx IHx]. exists (S fx). intros [|f] L; [lia|]. rewrite eval_S_arr. apply IHx. lia.
+  - (* first element *) intros s e l v s1 HX [fx IHx]. exists fx. intros f L acc. cbn [go_arr]. rewrite (IHx f) by lia. reflexivity.
+  - (* later element *) intros s e v0 l v s1 s2 HE [fe IHe] NN HX [fx IHx]. exists (fe + fx). intros f L acc.
+    cbn [go_arr]. rewrite (IHe f) by lia. fold (go_arr f).
+    transitivity (go_arr f s1 l (v0 :: acc)).
+    + destruct NN as [A1 A2]. destruct v0; try contradiction; reflexivity.
+    + apply IHx. lia.
 Qed.
